@@ -1,8 +1,13 @@
-// Package tls: TLS is outside the claim; Dial and Listen are the plain contract transport.
+// Package tls: TLS itself (handshake, certificates, encryption) is outside the
+// claim; Dial and Listen use the plain contract transport. What is kept is the
+// shape of the real API that matters to callers: Dial returns a concrete *Conn
+// (nil on failure), exactly like crypto/tls, so a caller that stores the
+// result in a net.Conn variable gets a non-nil interface holding a nil pointer.
 package tls
 
 import (
 	stdtls "crypto/tls"
+	stdtime "time"
 
 	"github.com/anthdm/hollywood/zzshim/net"
 )
@@ -10,7 +15,29 @@ import (
 type Config = stdtls.Config
 type Certificate = stdtls.Certificate
 
-func Dial(network, addr string, config *Config) (net.Conn, error) { return net.Dial(network, addr) }
+// Conn wraps a connection of the contract transport. Like crypto/tls.Conn its methods dereference the receiver.
+type Conn struct {
+	inner *net.FakeConn
+}
+
+func (c *Conn) ZZFake() *net.FakeConn                 { return c.inner }
+func (c *Conn) Read(b []byte) (int, error)            { return c.inner.Read(b) }
+func (c *Conn) Write(b []byte) (int, error)           { return c.inner.Write(b) }
+func (c *Conn) Close() error                          { return c.inner.Close() }
+func (c *Conn) LocalAddr() net.Addr                   { return c.inner.LocalAddr() }
+func (c *Conn) RemoteAddr() net.Addr                  { return c.inner.RemoteAddr() }
+func (c *Conn) SetDeadline(t stdtime.Time) error      { return c.inner.SetDeadline(t) }
+func (c *Conn) SetReadDeadline(t stdtime.Time) error  { return c.inner.SetReadDeadline(t) }
+func (c *Conn) SetWriteDeadline(t stdtime.Time) error { return c.inner.SetWriteDeadline(t) }
+
+func Dial(network, addr string, config *Config) (*Conn, error) {
+	c, err := net.Dial(network, addr)
+	if err != nil {
+		return nil, err
+	}
+	return &Conn{inner: c.(*net.FakeConn)}, nil
+}
+
 func Listen(network, laddr string, config *Config) (net.Listener, error) {
 	return net.Listen(network, laddr)
 }
